@@ -27,8 +27,11 @@ REQUIRED = {'mon:transform.checked': 200, 'mon:apply_transformers.checked': 100,
 def shards(tier, seed):
     per = 300 if tier == 'quick' else 10000
     budget = 45 if tier == 'quick' else 540
-    return [{'kind': 'random', 'count': per, 'budget_s': budget, 'max_g': 12 if tier == 'quick' else 30,
+    _out = [{'kind': 'random', 'count': per, 'budget_s': budget, 'max_g': 12 if tier == 'quick' else 30,
              'max_in': 5 if tier == 'quick' else 6} for _ in range(16)]
+    if tier == 'thorough':
+        _out.append({'kind': 'suite', 'select': ['tests/cirbo/minimization', 'tests/cirbo/core'], 'budget_s': 900})
+    return _out
 
 
 def check_case(case, ctx):
@@ -93,6 +96,11 @@ def gen_case(rng, spec):
 
 def run_shard(spec, ctx):
     _simp.install(ctx, 'C03')
+    if spec.get('kind') == 'suite':
+        from vt import suite
+        import sys
+        suite.run(sys.modules[__name__], ctx, select=spec.get('select'))
+        return
     for i in range(spec['count']):
         if ctx.out_of_time():
             ctx.count('stopped_on_budget')
